@@ -9,6 +9,22 @@ HERE = os.path.dirname(os.path.dirname(os.path.abspath(__file__)))
 sys.path.insert(0, HERE)
 
 CLAIMED = {
+    'C02': dict(
+        category='other',
+        text='Memory-safety discipline of everything reachable from the interposers: every write sink (sized and '
+             'unbounded libc writers, subscript and pointer stores, (buffer,size) contracts at direct and registry call '
+             'sites) is an obligation offset + n <= capacity discharged by a forward analysis over conjunctions of '
+             'linear inequalities with symbolic buffer sizes (Fourier-Motzkin projection and entailment, loop '
+             'invariants by join, relaxation candidates and widening) - hence for every result-buffer size and input '
+             'length; unsigned size expressions must be provably non-negative; termination after non-terminating '
+             'writers; no signed arithmetic on text-converted integers without a range check; nullable results and '
+             'valid-on-success buffers tested before use (argv, argv[0], environ are nullable sources). Six sites that '
+             'need non-linear or content-dependent arguments are listed exceptions with machine-checked side conditions.',
+        design_ref='DESIGN.md §5 C02, §4 A4/A5',
+        note='Not decided: hangs, uninitialised reads, over-reads, UB kinds outside the rules. Trusted: libc writers '
+             'respect their size argument. Six genuine defects found on the pinned tree were replayed (ASan/SEGV) and repaired.',
+        technique='static analysis: linear-inequality abstract domain (polyhedra-lite) over the CFG + nullable/validity '
+                  'dataflow + termination typestate'),
     'C11': dict(
         category='other',
         text='Inductive argument over one call, decided structurally in both build variants: the configuration is '
